@@ -438,7 +438,7 @@ func runC02Location(c *Ctx) {
 		}})
 	runK4Spec(c, k4spec{rule: "C02.location", fn: "geom.(*halfEdgeRecord).location", construct: "half-edge location", num: []string{"$1"}, vals: []float64{0, 1},
 		bools: []string{"$0.incident.inSet[0]", "$0.incident.inSet[1]", "$0.twin.incident.inSet[0]", "$0.twin.incident.inSet[1]", "$0.inSet[0]", "$0.inSet[1]"},
-		what: "both adjacent faces in the set -> interior; exactly one -> boundary; none -> interior iff the edge itself is in the set",
+		what:  "both adjacent faces in the set -> interior; exactly one -> boundary; none -> interior iff the edge itself is in the set",
 		want: func(m *Model) []string {
 			op := int(m.Num["$1"])
 			f1 := m.Bool[fmt.Sprintf("$0.incident.inSet[%d]", op)]
